@@ -56,8 +56,8 @@ ASSUMPTIONS = [
     "PathInfo/ERO always carry a payload (to_json needs one); ERO.strict is a bool",
     "MaintenanceEntry: unknown keys are not injected (no tolerance documented); aware datetimes use whole-minute offsets",
 ]
-BUDGET = {"quick": 160000, "thorough": 3200000}
-MIN_LABEL_FRACTION = dict({f"kind:{k}": 0.02 for k in KINDS},
+BUDGET = {"quick": 100000, "thorough": 2500000}
+MIN_LABEL_FRACTION = dict({f"kind:{k}": 0.015 for k in KINDS},
                           **{"falsy-field": 0.15, "list-field": 0.05, "boundary": 0.03, "extras": 0.1,
                              "nothing-set": 0.005, "update-kw": 0.05, "bad-kw": 0.1})
 
@@ -165,9 +165,12 @@ def _extras(kind):
 
 def _subset_dict(fields, max_size=None):
     """dict over a random subset of the fields (possibly empty), each with its own value strategy"""
-    names = list(fields)
-    return st.lists(st.sampled_from(names), unique=True, max_size=max_size or len(names)).flatmap(
-        lambda ks: st.fixed_dictionaries({k: fields[k] for k in ks}))
+    names = st.lists(st.sampled_from(list(fields)), unique=True, max_size=max_size or len(fields))
+
+    @st.composite
+    def sub(draw):
+        return {k: draw(fields[k]) for k in draw(names)}
+    return sub()
 
 
 def _jsonfield_case(kind):
@@ -256,11 +259,14 @@ def _tuple_case(kind):
                                   "bad_type": _bad_type.filter(lambda t: t not in TUPLE_TYPES[kind])})
 
 
+_BY_KIND = ([_jsonfield_case(k) for k in JSONFIELD_KINDS] + [_tags_case] + [_jsondata_case(k) for k in JSONDATA_KINDS] +
+            [_gateway_case, _path_case("PathInfo"), _path_case("ERO"), _maint_case] +
+            [_tuple_case(k) for k in TUPLE_KINDS])
+assert len(_BY_KIND) == len(KINDS)
+
+
 def strategy(tier):
-    return st.one_of(*([_jsonfield_case(k) for k in JSONFIELD_KINDS] + [_tags_case] +
-                       [_jsondata_case(k) for k in JSONDATA_KINDS] +
-                       [_gateway_case, _path_case("PathInfo"), _path_case("ERO"), _maint_case] +
-                       [_tuple_case(k) for k in TUPLE_KINDS]))
+    return st.one_of(*_BY_KIND)
 
 
 # ---------------------------------------------------------------------------------------------- oracle helpers
